@@ -909,7 +909,9 @@ def neutron_scattering(compound, density=None,
     is_energy_dependent = False
     for element, quantity in compound.atoms.items():
         # TODO: use NaN rather than None
-        if not element.neutron.has_sld():
+        # Note: the compound density is given, so the number density of the
+        # pure element (unknown for e.g. Ra) is not needed here.
+        if element.neutron.b_c is None:
             return None, None, None
         molar_mass += element.mass*quantity
         num_atoms += quantity
